@@ -7,6 +7,13 @@ chains, diamonds, repeated imports, cycles (through the root or not), missing an
 
 The specification `Walk`/`Fails` (`Model/Cats/MultiFileSpec.lean`) is the depth-first, import-order
 traversal as a big-step relation; a derivation is a finite call tree of the recursive `parse`.
+
+Exit status: `Stages` lists the steps of `main()` in its order — PRE EXPANSION validation of the parsed set, then
+`apply_attributes`, then the expansion of inlines, then POST EXPANSION validation, then generation — and the theorems
+`exit_range`, `exit_zero_iff` / `exit_zero_steps`, `exit_two_iff`, `exit_one_iff`, `output_only_when_valid` give the status
+table; `pre_validation_before_attributes` states that the first pass sees the declarations as parsed (no attribute applied:
+a set it rejects exits 2 whatever `apply_attributes` would do, e.g. raise on an attribute the member type does not have).
+What the passes check is a parameter here (C06).
 -/
 import SymbolVerif.Proofs.MultiFileLemmas
 namespace SymbolVerif.C17
@@ -367,6 +374,61 @@ theorem exit_zero_reaches_output (st : Stages D) (r : Except Err (List D)) (h : 
     reachesOutput st r = true := by
   obtain ⟨ds, ds', rfl, hv, hx, hp, _⟩ := (exit_zero_iff st r).1 h
   simp [reachesOutput, hv, hx, hp]
+
+/-! ### the order of the steps -/
+
+/-- **the first validation pass sees the declarations as parsed**: whatever `apply_attributes` would do with them — also
+    when it would raise, as it does for an attribute the member type does not have —, a set that the PRE EXPANSION pass
+    rejects gives status 2 (errors reported), never the status 1 of an escaping exception, and nothing is written. -/
+theorem pre_validation_before_attributes (st : Stages D) (ds : List D) (h : st.validatePre ds = false) :
+    mainExit st (.ok ds) = 2 ∧ reachesOutput st (.ok ds) = false := by
+  simp [mainExit, reachesOutput, h]
+
+/-- the exit status does not depend on what `apply_attributes` does with a set the first pass rejects, and for a set it
+    accepts only on the result of applying the attributes to that very set -/
+theorem exit_independent_of_attributes_when_pre_fails (st st' : Stages D) (ds : List D)
+    (hpre : st.validatePre = st'.validatePre) (h : st.validatePre ds = false) :
+    mainExit st (.ok ds) = mainExit st' (.ok ds) := by
+  rw [(pre_validation_before_attributes st ds h).1, (pre_validation_before_attributes st' ds (hpre ▸ h)).1]
+
+/-- status 0 spelled out step by step: the parsed set passes the first pass as it is, the attributes are then applied to it,
+    the inlines of the result are expanded, and the second pass and the generation see the expanded set -/
+theorem exit_zero_steps (st : Stages D) (r : Except Err (List D)) :
+    mainExit st r = 0 ↔
+      ∃ ds da ds', r = .ok ds ∧ st.validatePre ds = true ∧ st.applyAttributes ds = some da ∧ st.expandInlines da = some ds' ∧
+        st.validatePost ds' = true ∧ st.generate ds' = true := by
+  rw [exit_zero_iff]
+  constructor
+  · rintro ⟨ds, ds', rfl, hv, hx, hp, hg⟩
+    simp only [Stages.expand, Option.bind_eq_some_iff] at hx
+    obtain ⟨da, ha, he⟩ := hx
+    exact ⟨ds, da, ds', rfl, hv, ha, he, hp, hg⟩
+  · rintro ⟨ds, da, ds', rfl, hv, ha, he, hp, hg⟩
+    exact ⟨ds, ds', rfl, hv, by simp [Stages.expand, ha, he], hp, hg⟩
+
+/-- the order matters. `appliedFirst` is `main()` with `apply_attributes` moved in front of the first pass. -/
+def appliedFirstExit (st : Stages D) (ds : List D) : Nat :=
+  match st.applyAttributes ds with
+  | none => 1
+  | some da =>
+    if !st.validatePre da then 2
+    else match st.expandInlines da with
+      | none => 1
+      | some ds' => if !st.validatePost ds' then 2 else if st.generate ds' then 0 else 1
+
+/-- two toy instances on which the two orders differ, in the two ways the sixth-round seed showed: declarations are numbers,
+    "applying the attributes" turns 1 into 2 and raises on 0, the first pass rejects 0 and 2 (a reference that only the
+    expansion resolves), the expansion turns 2 into 3, the second pass accepts 3 only. The valid set `[1]`: 0 against 2; the
+    set `[0]` with the attribute that does not apply: 2 against 1. -/
+def toyStages : Stages Nat := {
+  validatePre := fun ds => ds.all fun d => d == 1
+  applyAttributes := fun ds => if ds.contains 0 then none else some (ds.map fun d => if d == 1 then 2 else d)
+  expandInlines := fun ds => some (ds.map fun d => if d == 2 then 3 else d)
+  validatePost := fun ds => ds.all fun d => d == 3
+  generate := fun _ => true }
+
+example : mainExit toyStages (.ok [1]) = 0 ∧ appliedFirstExit toyStages [1] = 2 := by decide
+example : mainExit toyStages (.ok [0]) = 2 ∧ appliedFirstExit toyStages [0] = 1 := by decide
 
 /-! ### non-vacuity: concrete import graphs -/
 
